@@ -4,7 +4,10 @@ import GotranxModel
 
 Proved for the lexer model (`Gx.lexAux`, which mirrors lark's contextual lexing of `ode.lark`, see
 `Syntax.lean`): runs of blanks and tabs between tokens, and the *text* of a comment, do not change
-the sequence of non-comment tokens.  Checked by execution of the model (tests) on concrete texts:
+the sequence of non-comment tokens; a CRLF line end is lexed exactly as LF, a blank line (LF or CRLF) is absorbed, and
+inside an expression a line break with any indentation is white space (`lex_crlf`, `lex_blank_line`,
+`lex_blank_line_crlf`, `lex_continuation_indent`, `lex_continuation_break`: one lexer step each, same fuel, any context).
+Checked by execution of the model (tests) on concrete texts:
 CRLF, line breaks after operators / opening parentheses, comment placement.  Three behaviours of
 the grammar that contradict the property are mirrored by the model and recorded as known findings:
 an empty comment `#` followed by a line break takes the next line as its text; a comment line
@@ -35,6 +38,47 @@ theorem lex_comment (fuel : Nat) (cs : List Char) (acc : List Tok) (b : Bool)
   have h2 : isInline '#' = false := by decide
   simp only [lexAux, h1, h2, Bool.false_eq_true, if_false]
   simp [hne]
+
+/-- **A CRLF line end is lexed exactly as LF**, whatever precedes it and whatever follows (same fuel, same
+accumulated tokens): as a `NEWLINE` token when the previous token can end an operand, as white space otherwise. -/
+theorem lex_crlf (fuel : Nat) (b : Bool) (cs : List Char) (acc : List Tok) :
+    lexAux (fuel + 1) b ('\r' :: '\n' :: cs) acc = lexAux (fuel + 1) b ('\n' :: cs) acc := by
+  have h1 : isInline '\r' = false := by decide
+  have h2 : isInline '\n' = false := by decide
+  have h3 : isWs '\r' = true := by decide
+  have h4 : isWs '\n' = true := by decide
+  cases b <;> simp [lexAux, h1, h2, h3, h4, startsNewline, takeNewlines, takeWhileC]
+
+/-- **A blank line changes nothing**: a second line break directly after a line break is absorbed
+(`NEWLINE` is `(\r?\n)+`; between operands both are white space). -/
+theorem lex_blank_line (fuel : Nat) (b : Bool) (cs : List Char) (acc : List Tok) :
+    lexAux (fuel + 1) b ('\n' :: '\n' :: cs) acc = lexAux (fuel + 1) b ('\n' :: cs) acc := by
+  have h2 : isInline '\n' = false := by decide
+  have h4 : isWs '\n' = true := by decide
+  cases b <;> simp [lexAux, h2, h4, startsNewline, takeNewlines, takeWhileC]
+
+/-- … also when the blank line ends in CRLF -/
+theorem lex_blank_line_crlf (fuel : Nat) (b : Bool) (cs : List Char) (acc : List Tok) :
+    lexAux (fuel + 1) b ('\n' :: '\r' :: '\n' :: cs) acc = lexAux (fuel + 1) b ('\n' :: cs) acc := by
+  have h2 : isInline '\n' = false := by decide
+  have h4 : isWs '\n' = true := by decide
+  have h5 : isWs '\r' = true := by decide
+  cases b <;> simp [lexAux, h2, h4, h5, startsNewline, takeNewlines, takeWhileC]
+
+/-- **Line continuation inside an expression**: after a token that cannot end an operand (an operator, an opening
+parenthesis, a comma, `=`) a line break followed by indentation - blanks, tabs, further line breaks - is the same as
+the line break alone, which in turn is the same as nothing at all. -/
+theorem lex_continuation_indent (fuel : Nat) (c : Char) (hc : isWs c = true) (cs : List Char) (acc : List Tok) :
+    lexAux (fuel + 1) false ('\n' :: c :: cs) acc = lexAux (fuel + 1) false ('\n' :: cs) acc := by
+  have h2 : isInline '\n' = false := by decide
+  have h4 : isWs '\n' = true := by decide
+  simp [lexAux, h2, h4, takeWhileC, hc]
+
+theorem lex_continuation_break (fuel : Nat) (cs : List Char) (acc : List Tok) :
+    lexAux (fuel + 1) false ('\n' :: cs) acc = lexAux fuel false (takeWhileC isWs cs).2 acc := by
+  have h2 : isInline '\n' = false := by decide
+  have h4 : isWs '\n' = true := by decide
+  simp [lexAux, h2, h4]
 
 /-! Executable checks of the lexer / parser model on layout variants (tests on concrete texts). -/
 def base : String := "states(x=1, y=2)\nparameters(a=0.5)\ni = a*x\ndx_dt = i - y\ndy_dt = -x\n"
